@@ -229,6 +229,21 @@ func cellEscapes(cell *ssa.Alloc) bool {
 					}
 				}
 			case *ssa.DebugRef:
+			case *ssa.Defer:
+				// `defer out.abortOnError(&err)`: handed to a deferred routine that only reads through it —
+				// it runs after the body, like a deferred closure that looks at the variable
+				f := r.Call.StaticCallee()
+				okAll := f != nil && len(f.Blocks) > 0 && !r.Call.IsInvoke()
+				if okAll {
+					for i, a := range r.Call.Args {
+						if a == addr && !(i < len(f.Params) && readOnlyPtrParam(f.Params[i])) {
+							okAll = false
+						}
+					}
+				}
+				if !okAll {
+					esc = true
+				}
 			default:
 				esc = true
 			}
@@ -236,6 +251,25 @@ func cellEscapes(cell *ssa.Alloc) bool {
 	}
 	visit(cell)
 	return esc
+}
+
+// readOnlyPtrParam: the function does nothing with its pointer parameter but load through it.
+func readOnlyPtrParam(prm *ssa.Parameter) bool {
+	if prm.Referrers() == nil {
+		return true
+	}
+	for _, r := range *prm.Referrers() {
+		switch x := r.(type) {
+		case *ssa.UnOp:
+			if x.Op != token.MUL {
+				return false
+			}
+		case *ssa.DebugRef:
+		default:
+			return false
+		}
+	}
+	return true
 }
 
 // root strips value-preserving wrappers and looks through single-assignment
@@ -257,6 +291,17 @@ func root(v ssa.Value) ssa.Value {
 			v = x.X
 		case *ssa.UnOp:
 			if x.Op != token.MUL {
+				return v
+			}
+			if fa, ok := x.X.(*ssa.FieldAddr); ok {
+				// the file / path field of a file owner (owners.go)
+				if rep, ok := aliasOf(fa); ok {
+					if rep == v {
+						return v
+					}
+					v = rep
+					continue
+				}
 				return v
 			}
 			cell := cellOf(x.X)
